@@ -77,3 +77,10 @@
 
 ; ---- bridge metadata (A-JSON: decoding is a pure function of the bytes) -------------------------------
 (declare-fun permHas (Bytes) Bool)      ; metadata parses as the documented structure and has the perm_channels key
+
+; ---- transactions (assumed pure accessors) -----------------------------------------------------------
+(declare-fun txMsgs (Iface) (GSeq Iface))
+(declare-fun feePayer (Iface) Bytes)
+(declare-fun feeGranter (Iface) Bytes)
+(declare-fun addrStr (Int Bytes) Bytes)
+(declare-fun addrStrOK (Int Bytes) Bool)
